@@ -284,6 +284,14 @@ class Runner:
                     elif kind == 'disall':
                         _, dh, ignored = act
                         tr.disassociate_all(dh, self.real_handle(ignored))
+                    elif kind == 'wr':          # ONE write_entity call for several context states of one descriptor
+                        _, dh, handles, n = act
+                        handles = [self.real_handle(h) for h in handles]
+                        ent = self.entity(dh)
+                        for k, h in enumerate(handles):
+                            if h in ent.states:
+                                mdibrun.set_payload(ent.states[h], n + k, self.pm_types)
+                        tr.write_entity(ent, handles)
                     elif kind == 'delstate':     # entity interface only: delete a context state
                         _, handle = act
                         handle = self.real_handle(handle)
@@ -521,6 +529,16 @@ class Runner:
                                 if with_state is not None:
                                     mdibrun.set_payload(st, with_state, self.pm_types)
                             tr.add_descriptor(d, state_container=st)
+                    elif kind == 'addbad':      # add_descriptor with the state container of ANOTHER descriptor
+                        _, handle, parent, type_name, n, other = act
+                        d = copy.deepcopy(self.template(type_name))
+                        d.Handle = handle
+                        d.parent_handle = parent
+                        d.DescriptorVersion = 0
+                        d.set_source_mds(None)
+                        mdibrun.set_payload(d, n, self.pm_types)
+                        st = self.pm.data_model.mk_state_container(self.pm.descriptions.handle.get_one(other))
+                        tr.add_descriptor(d, state_container=st)
                     elif kind == 'upd':
                         _, handle, n, *slot = act
                         if op.get('iface') == 'entity':
